@@ -69,6 +69,7 @@ type ReplicaPlan struct {
 	Ops      []Op          `json:"ops"`
 	HaltFail string        `json:"halt_fail,omitempty"` // role 3: "timeout" (the node's own acquisition time-out) or "cancel" (the application gives up waiting)
 	Forward  bool          `json:"forward,omitempty"`   // role 4: a transaction is forwarded while the lock is held
+	RelFault string        `json:"rel_fault,omitempty"` // role 4: "" | "resp-lost" (the primary releases, its answer is lost) | "stream-down" (the node is cut off from the primary when the application lets go)
 	Promote  bool          `json:"promote,omitempty"`   // roles 3, 4: afterwards the node becomes primary and must be able to commit
 }
 
@@ -83,6 +84,7 @@ func genReplicaPlan(t *rapid.T) ReplicaPlan {
 	}
 	if p.Role == 4 {
 		p.Forward = rapid.Bool().Draw(t, "forward")
+		p.RelFault = rapid.SampledFrom([]string{"", "resp-lost", "stream-down"}).Draw(t, "rel_fault")
 	}
 	if p.Role >= 3 {
 		p.Promote = rapid.Bool().Draw(t, "promote")
@@ -248,14 +250,22 @@ func runReplicaPlan(c *pbt.Case, p ReplicaPlan) {
 			n1.CloseConns()
 			c.Label("forwarded-commit")
 		}
-		if err := lf.SetLkWait(context.Background(), mount.UnLck, 72, 72); err != nil {
+		switch p.RelFault {
+		case "resp-lost":
+			n1.FC.DropReleaseResp = 1
+		case "stream-down":
+			n1.FC.Isolate()
+		}
+		// (with a fault the release may report an error; the application has let go either way)
+		if err := lf.SetLkWait(context.Background(), mount.UnLck, 72, 72); err != nil && p.RelFault == "" {
 			c.Failf("C07/setup", "release of the halt lock: %v", err)
 		}
 		_ = lf.Close()
+		n1.FC.Refuse(false)
 		if err := cl.WaitConverged(20 * time.Second); err != nil {
 			c.Failf("C07/setup", "%v", err)
 		}
-		c.Label("role:halt-lock-released")
+		c.Labelf("role:halt-lock-released:%s", p.RelFault)
 	default:
 		c.Label("role:connected-replica")
 	}
@@ -534,6 +544,9 @@ func runReplicaPlan(c *pbt.Case, p ReplicaPlan) {
 			}
 		}
 	}
+	if a := cl.LeaseAnomalies(); len(a) > 0 {
+		c.Failf("C07/primary-after-giving-lease-back", "%s", a[0])
+	}
 	if refused > 0 {
 		c.NonTrivial()
 	}
@@ -637,6 +650,9 @@ func runDemotePlan(c *pbt.Case, p DemotePlan) {
 	n0.SetOnOp(dbName, nil)
 	n0.CloseConns() // the connection releases its locks; role-change recovery may now run
 	c.Notef("lease lost before op %d (%q); tx result committed=%v err=%v pos %s -> %s", p.At, lostAt, wr.Committed, wr.Err, pre, n0.Pos(dbName))
+	if a := cl.LeaseAnomalies(); len(a) > 0 {
+		c.Failf("C07/primary-after-giving-lease-back", "%s", a[0])
+	}
 	switch {
 	case !lost:
 		c.Label("transaction-finished-before-loss")
